@@ -74,6 +74,28 @@ def place(e, pos, k):
     raise ValueError(pos)
 
 
+def expected_disp_bytes(nm, sval):
+    """Encoding of the fixed carrier statements of the displacement positions, for a displacement inside the address size
+    (Intel SDM vol. 2 tables 2-1/2-2: mod 00 no displacement, 01 disp8, 10 disp16/32)."""
+    def modrm(mod, reg, rm):
+        return bytes([(mod << 6) | (reg << 3) | rm])
+    if nm in ("disp reg+e", "disp e+reg"):
+        opc, reg, rm, sib, w = b"\x8b", 1, 3, b"", 4
+    elif nm == "disp reg+e+reg":
+        opc, reg, rm, sib, w = b"\x88", 2, 4, b"\x33", 4
+    elif nm == "disp16 reg+reg+e":
+        opc, reg, rm, sib, w = b"\x8b", 0, 0, b"", 2
+    else:
+        return None
+    if not (-(1 << (8 * w - 1)) <= sval < (1 << (8 * w - 1))):
+        return None
+    if sval == 0:
+        return (opc + modrm(0, reg, rm) + sib).hex()
+    if -128 <= sval <= 127:
+        return (opc + modrm(1, reg, rm) + sib + (sval % 256).to_bytes(1, "little")).hex()
+    return (opc + modrm(2, reg, rm) + sib + (sval % (1 << (8 * w))).to_bytes(w, "little")).hex()
+
+
 def run(v, tier, rng):
     trees = enum_trees(2 if tier == "quick" else 3, LITS)
     rng.shuffle(trees)
@@ -128,7 +150,7 @@ def run(v, tier, rng):
     if tier == "quick":
         dd_idx = dd_idx[:120]
     svals = lib.coq_eval_values("c06v", lib.header("Check.C06", "spec_value_z"), ["(%s)" % A.g_operand(progs[i][2]) for i in dd_idx], per_file=300) if dd_idx else []
-    op_cases, op_meta = [], []
+    op_cases, op_meta, absolute = [], [], {}
     B32 = ("config", "BITS", ("num", 32))
     for i, sval in zip(dd_idx, svals):
         e = progs[i][2]
@@ -150,7 +172,11 @@ def run(v, tier, rng):
             ("disp 1+reg+e", [B32, ("mn", "ADD", [A.ident("EAX"), mem([("+", ("num", 1)), ("+", ("id", "EDI")), ("+", pe), ("-", ("num", 1))])])],
              [B32, ("mn", "ADD", [A.ident("EAX"), mem([("+", ("id", "EDI")), dpart])])]),
         ]
+        B16 = ("config", "BITS", ("num", 16))
+        variants.append(("disp16 reg+reg+e", [B16, ("mn", "MOV", [A.ident("AX"), mem([("+", ("id", "BX")), ("+", ("id", "SI")), ("+", pe)])])],
+                         [B16, ("mn", "MOV", [A.ident("AX"), mem([("+", ("id", "BX")), ("+", ("id", "SI")), dpart])])]))
         for nm, pv, pr in variants:
+            absolute[len(op_cases)] = expected_disp_bytes(nm, sval)
             op_meta.append((i, nm))
             op_cases.append({"id": str(len(op_cases)), "srcs": [A.p_program(pv), A.p_program(pr)], "reuse": False})
     op_checked = 0
@@ -165,6 +191,14 @@ def run(v, tier, rng):
             if b["diag"] or b.get("parse_err"):
                 continue                      # the literal form itself is outside what gosk accepts: nothing to compare with
             op_checked += 1
+            want_abs = absolute.get(k)
+            if want_abs is not None:
+                # the written form of the value is not trusted either: the displacement that comes out is compared with the spec value
+                for which, c in (("expression", a), ("literal", b)):
+                    if not (c["diag"] or c.get("parse_err")) and c["out"] != want_abs:
+                        v.violation("displacement encoded in %s position is not the value of the expression (%s form)" % (nm, which),
+                                    {"source": op_cases[k]["srcs"][0 if which == "expression" else 1], "got": c["out"], "want": want_abs,
+                                     "value_from": "Spec/Arith.aeval of the expression = %d" % svals[dd_idx.index(i)]})
             if a["diag"] or a.get("parse_err") or a["out"] != b["out"]:
                 v.violation("constant expression in %s position is not replaced by its value (differs from the same statement written with the literal)" % nm,
                             {"source": op_cases[k]["srcs"][0], "literal_form": op_cases[k]["srcs"][1], "got": a["out"], "diagnosed": bool(a["diag"] or a.get("parse_err")),
